@@ -401,6 +401,60 @@ def run_components(ctx, res, provider):
                 res.fail("C15 components: undocumented error " + ",".join(sorted(set(und))), inp, observed=o, expected=mobs)
 
 
+def run_histories(ctx, res, provider):
+    """the same settings reached through different HISTORIES of one Alarms object (reads in between, settings changed
+    several times) must answer like a fresh object given the final settings: acknowledged-until and snooze-until are
+    component-level state applied to every alarm whenever it is asked"""
+    import icalendar
+    from icalendar import Alarms
+    from datetime import datetime, timezone
+    rng = common.rng_for(ctx.seed, "c15-hist-" + provider)
+    utc = lambda h, m=0: datetime(2024, 10, 10, h, m, tzinfo=timezone.utc)  # noqa: E731
+    n = 400 if ctx.big else 80 * (1 + 3 * ctx.level)
+    for i in range(n):
+        def mk():
+            x = Alarms()
+            for k in range(rng_k):
+                al = icalendar.Alarm()
+                al.TRIGGER = timedelta(minutes=-15 * (k + 1))
+                if ack_flags[k]:
+                    al.ACKNOWLEDGED = utc(9, 10 * k)
+                if k == 0 and rep:
+                    al.REPEAT = 2
+                    al.DURATION = timedelta(minutes=5)
+                x.add_alarm(al)
+            x.set_start(utc(12))
+            return x
+        rng_k = rng.randrange(1, 4)
+        ack_flags = [rng.random() < 0.3 for _ in range(rng_k)]
+        rep = rng.random() < 0.5
+        ops = [(rng.choice(["ack", "snooze", "read"]), utc(rng.randrange(8, 15), rng.choice([0, 15, 30, 45]))) for _ in range(rng.randrange(2, 7))]
+        x = mk()
+        obs_alarm_times(x)                       # a read before anything is set
+        final = {"ack": None, "snooze": None}
+        for op, t in ops:
+            if op == "ack":
+                x.acknowledge_until(t)
+                final["ack"] = t
+            elif op == "snooze":
+                x.snooze_until(t)
+                final["snooze"] = t
+            else:
+                obs_alarm_times(x)
+        y = mk()
+        if final["ack"] is not None:
+            y.acknowledge_until(final["ack"])
+        if final["snooze"] is not None:
+            y.snooze_until(final["snooze"])
+        a, b = obs_alarm_times(x), obs_alarm_times(y)
+        res.count(("hist", provider, i, str(ops)), nontrivial=any(o != "read" for o, _ in ops))
+        res.dist("history")
+        if a != b:
+            res.fail("C15 (%s): an Alarms object whose settings were reached through a history of reads and changes answers "
+                     "differently from a fresh object with the same final settings" % provider,
+                     {"alarms": rng_k, "ops": [[o, t.isoformat()] for o, t in ops]}, observed=a, expected=b)
+
+
 def probe_moz_setters(ctx, res):
     """C15-F4: the X_MOZ_LASTACK / X_MOZ_SNOOZE_TIME setters store text their own getters cannot read"""
     import icalendar
@@ -423,6 +477,17 @@ def probe_moz_setters(ctx, res):
 
 
 def run(ctx, res):
+    _run_main(ctx, res)
+    import icalendar
+    for provider in ("zoneinfo", "pytz"):
+        getattr(icalendar, "use_" + provider)()
+        try:
+            run_histories(ctx, res, provider)
+        finally:
+            icalendar.use_zoneinfo()
+
+
+def _run_main(ctx, res):
     n = len(table_cases())
     res.rule = (f"decision table: all {n} weak orderings (ties included) of trigger / alarm ACKNOWLEDGED / component "
                 "acknowledgement / snooze with each of the last three optionally absent x 6 triggers (zoned Berlin, New "
